@@ -27,7 +27,7 @@ CLASSES = ("constant", "two_valued", "bits2", "bits4", "bits8", "normal", "wide"
 
 def REQUIRED(tier):
     return ["histories:composition", "histories:merge", "histories:merge_of_merges", "class:constant", "class:wide", "class:outlier", "class:tiny",
-            "mode:basic", "mode:full", "constant_channel_checks", "single_sample_chunks", "canary_audits", "cross_partition_checks", "class:const_f64", "class:normal_f64", "histories:large_merge", "regime:merged_count_over_2^21", "histories:observed_mid_stream", "merge:augmented_assignment", "regime:chunks_of_thousands_of_samples"]
+            "mode:basic", "mode:full", "constant_channel_checks", "single_sample_chunks", "canary_audits", "cross_partition_checks", "class:const_f64", "class:normal_f64", "histories:large_merge", "regime:merged_count_over_2^21", "histories:observed_mid_stream", "merge:augmented_assignment", "regime:chunks_of_thousands_of_samples", "histories:reused_chunk_buffer", "histories:after_refused_first_push"]
 
 
 def cases(tier, seed):
@@ -89,16 +89,32 @@ def gen_data(cls, n, nch, dseed):
     return x
 
 
-def _push_all(cs_cls, x, chunks, mode, frame, first_index=0, peek=False):
+def _push_all(cs_cls, x, chunks, mode, frame, first_index=0, peek=False, reuse=False, refused_first=False):
     """Feed x (n, nch) in consecutive chunks of the given sizes; returns the ChannelStats.
 
     peek: read every statistic after every chunk (a progress display): looking at an accumulator must not change what it reports later."""
     n, nch = x.shape
     cs = cs_cls(nch, n)
     pos = 0
+    if refused_first:
+        # a first push the library has to refuse (a 2-D chunk instead of the flat one): the accumulator must be as new afterwards
+        try:
+            cs.push_data(np.ascontiguousarray(x[: chunks[0]]).reshape(chunks[0], nch, 1), first_index, mode=mode)
+        except Exception:  # noqa: BLE001
+            pass
+    work = None
     for i, c in enumerate(chunks):
-        arr = frame.like(np.ascontiguousarray(x[pos : pos + c]).ravel(), f"chunk{i}")
-        cs.push_data(arr, i + first_index, mode=mode)
+        flat = np.ascontiguousarray(x[pos : pos + c]).ravel()
+        if reuse:
+            # one work buffer for every chunk (what a streaming reader does), scribbled over as soon as the push has returned
+            if work is None or work.size < flat.size:
+                work = np.empty(max(flat.size, max(chunks) * nch), dtype=flat.dtype)
+            work[: flat.size] = flat
+            cs.push_data(work[: flat.size], i + first_index, mode=mode)
+            work[...] = 123 if flat.dtype.kind in "ui" else -9.75e3
+        else:
+            arr = frame.like(flat, f"chunk{i}")
+            cs.push_data(arr, i + first_index, mode=mode)
         pos += c
         if peek:
             with np.errstate(all="ignore"):
@@ -267,6 +283,11 @@ def run_case(case, ctx):
             if len(chunks) >= 2:
                 ctx.count("histories:observed_mid_stream")
                 run_hist("composition", chunks + ["peek"], lambda fr, ch=chunks: _push_all(ChannelStats, x, ch, mode, fr, peek=True))
+                ctx.count("histories:reused_chunk_buffer")
+                run_hist("composition", chunks + ["reused-buffer"], lambda fr, ch=chunks: _push_all(ChannelStats, x, ch, mode, fr, reuse=True))
+            if len(chunks) % 3 == 1:
+                ctx.count("histories:after_refused_first_push")
+                run_hist("composition", chunks + ["after-refused-push"], lambda fr, ch=chunks: _push_all(ChannelStats, x, ch, mode, fr, refused_first=True))
         for k in range(1, n):
             run_hist("merge", ["merge", k, n - k], lambda fr, k=k: merge_of(k, fr))
         if n >= 3:
